@@ -898,25 +898,28 @@ class Reaction:
         Make sure mass is not created or destroyed by varying the 
         reactant stoichiometric coefficient.
         """
+        phases = self.phases
         if variable:
             index = self.chemicals.get_index(variable)
+        elif phases:
+            index = self._reactant_index[1]
         else:
             index = self._reactant_index
         stoichiometry_by_wt = self._get_stoichiometry_by_wt()
-        if self.phases: 
+        if phases: 
             stoichiometry_by_wt = stoichiometry_by_wt.sum(0)
         def f(x):
             stoichiometry_by_wt[index] = x
             return stoichiometry_by_wt.sum()
         
         x = flx.aitken_secant(f, 1)
-        if self._basis == 'mol': 
-            x /= self.MWs[index]
-            if self.phases:
-                row = np.where(self._stoichiometry[:, index])
-                self._stoichiometry[row, index] = x
-            else:
-                self._stoichiometry[index] = x 
+        if self._basis == 'mol': x /= self.MWs[index]
+        if phases:
+            for row, value in enumerate(self._stoichiometry[:, index]):
+                if value: break
+            self._stoichiometry[row, index] = x
+        else:
+            self._stoichiometry[index] = x 
         self._rescale()
     
     def correct_atomic_balance(self, constants=None):
